@@ -216,7 +216,8 @@ def make_body(name, acts, log):
                 raise EXN[a[1]](a[2])
             elif op == "send":
                 for j in range(1, a[2] + 1):
-                    e = CLS[a[1]](i=i * 10 + j)
+                    # ("send", cls, n, "same"): n events with IDENTICAL payload (they serialize identically)
+                    e = CLS[a[1]](i=i * 10 + (1 if len(a) > 3 and a[3] == "same" else j))
                     log.append(("send", name, CLS[a[1]].__name__, e.i))
                     ctx.send_event(e)
             elif op == "wait":
@@ -550,9 +551,11 @@ def gen_spec(rng, want=None):
         a = dict(accepts=["StartEvent"], returns=["T1"], nw=1,
                  body=[("wait", {"k": 5}, rng.choice([None, 40])), ("ret", "T1")])
         externals = [("hr", 5)] if rng.random() < 0.8 else [("hr", 6), ("hr", 5)]
-    elif want == "fan":
+    elif want in ("fan", "fansame"):
         n = rng.choice([2, 3])
-        a = dict(accepts=["StartEvent"], returns=["T1", "None"], nw=1, body=[("send", "T1", n), ("retnone",)])
+        same = want == "fansame" or rng.random() < 0.4      # a fan-out of events with identical payload
+        a = dict(accepts=["StartEvent"], returns=["T1", "None"], nw=1,
+                 body=[("send", "T1", n, "same") if same else ("send", "T1", n), ("retnone",)])
         b = dict(accepts=["T1"], returns=["T2"], nw=rng.choice([1, 2, 3]), body=[("sleep", 1, True), ("ret", "T2")])
         c = dict(accepts=["T2"], returns=[stop, "None"], nw=1, body=[("collect", "T2", n), ("ret", stop)])
     spec = dict(kind=want, steps={"a": a, "b": b, "c": c}, pols=pols, handlers=handlers, timeout=timeout,
@@ -632,9 +635,16 @@ def pending_outputs(wf, prefix, body_log):
             elif isinstance(c, CommandScheduleIdleCheck) and ("idle",) not in buf:
                 buf.append(("idle",))
     returned = [b[1] for b in buf if b[0] == "add"] + list(wake)
-    added = [a[0] for a in seen_adds]
-    sent = [(x[2], x[3]) for x in body_log if x[0] == "send" and (x[1], x[3] // 10) in done_steps
-            and (x[2], x[3]) not in added]
+    # (as multisets: several sent events may carry the same payload)
+    import collections as _c
+    left = _c.Counter(a[0] for a in seen_adds)
+    sent = []
+    for x in body_log:
+        if x[0] == "send" and (x[1], x[3] // 10) in done_steps:
+            if left[(x[2], x[3])] > 0:
+                left[(x[2], x[3])] -= 1
+            else:
+                sent.append((x[2], x[3]))
     return returned, sent
 
 
@@ -661,7 +671,7 @@ def e_replayed(rc):
     return [3] + R.e_cmd(rc.exit_command)
 
 
-def crash_case(spec, kind, scratch, name, k):
+def crash_case(spec, kind, scratch, name, k, plan2=None):
     """Phase 1: run until the k-th tick is persisted, then the process is dead (the store drops every later write
     and the chain is stopped).  Phase 2: a new chain on the same persisted data; _on_server_start; the environment
     repeats the external inputs that were not accepted before the crash."""
@@ -694,6 +704,8 @@ def crash_case(spec, kind, scratch, name, k):
         await asyncio.gather(waiter, return_exceptions=True)
         # ---- the new process
         store2 = reopen_store(kind, store)
+        if plan2:
+            store2.plan = {k2: list(v) for k2, v in plan2.items()}     # store faults met by the NEW process
         obs.prefix = await persisted_ticks(store2, hd.run_id)
         obs.record_at_crash = await _get(store2)
         rt2, svc2 = chain(store2)
@@ -733,6 +745,8 @@ def crash_case(spec, kind, scratch, name, k):
         await asyncio.sleep(12)
         obs.record = await _get(store2)
         obs.ticks_after = await persisted_ticks(store2, hd.run_id)
+        obs.plan2_left = {k2: list(v) for k2, v in store2.plan.items()}
+        obs.calls2 = list(store2.calls)
         await svc2.stop()
         obs.wf = wf3
 
